@@ -88,10 +88,10 @@ func cutKind(kind string) string {
 	switch {
 	case strings.Contains(kind, SpSummary):
 		return "block-bulk"
-	case kind == SpQuality:
-		return "quality"
+	case kind == SpQuality, kind == SpQuality+"+"+SpFinalized:
+		return "quality" // the bft commit batch: quality record, with the finalized record when the round commits (one batch since the F13 repair)
 	case kind == SpFinalized:
-		return "finalized"
+		return "finalized" // a finalized record written by itself: only in a tree without the F13 repair
 	case kind == SpNodeIndex:
 		return "index"
 	case kind == "":
@@ -283,16 +283,12 @@ func (r *Run) EvalCut(k int) *CutResult {
 		}
 	}
 	// (3) resume the stream from the interrupted delivery
-	finLater := false
 	var diverges []string
 	for i := pos.Delivery; i < len(r.Deliveries); i++ {
 		d := r.Deliveries[i]
 		if _, err := n.Import(d.Block); err != nil {
 			// the node reports the error and goes on with the next block of the stream (the block itself is stored)
 			diverges = append(diverges, fmt.Sprintf("import error at delivery %d (block #%d): %v", i, d.Block.Header().Number(), err))
-		}
-		if i > pos.Delivery && strings.Contains(d.Kinds, SpFinalized) {
-			finLater = true
 		}
 	}
 	res.Resumed = n.Observe()
@@ -320,12 +316,11 @@ func (r *Run) EvalCut(k int) *CutResult {
 		diverges = append(diverges, "store-point qualities (block:resumed/uninterrupted) "+strings.Join(diffs, " "))
 	}
 	if res.Resumed.Fin != r.Final.Fin {
-		// a lagging finalized pointer is tolerated until one further epoch has committed
-		if finLater {
-			diverges = append(diverges, fmt.Sprintf("finalized %s, uninterrupted %s although a later epoch committed", short(res.Resumed.Fin), short(r.Final.Fin)))
-		} else if !r.FinSet[n.BFT.Finalized()] {
-			diverges = append(diverges, "finalized after resumption was never held by the uninterrupted node")
-		}
+		// no lag is tolerated: the quality and the finalized record are one batch (F13 repair), theorem resume_converges
+		diverges = append(diverges, fmt.Sprintf("finalized %s, uninterrupted %s", short(res.Resumed.Fin), short(r.Final.Fin)))
+	}
+	if res.ExtraSet {
+		diverges = append(diverges, "the resumed node stored a block the uninterrupted node never stored")
 	}
 	if len(diverges) > 0 {
 		bad("resume-diverges", strings.Join(diverges, "; "))
